@@ -56,6 +56,14 @@ func init() {
 					}
 				}
 			}
+			// every asset fails (more failures than workers)
+			for na := 2; na <= maxA; na++ {
+				for workers := 1; workers <= 2; workers++ {
+					c := cs("H_C12", na, 1, 0, 1, 3, workers)
+					c.Cert, c.TrackMem = true, true
+					out = append(out, c)
+				}
+			}
 			// other kinds of target repository (their "asset not there" errors differ)
 			for tkind := 1; tkind <= 4; tkind++ {
 				for na := 1; na <= 2; na++ {
@@ -69,7 +77,7 @@ func init() {
 									continue // zero-length files register assets for the implicit list only
 								}
 								c := cs("H_C12_Target", tkind, na, ns, tm, explicit)
-								c.TrackMem = true
+								c.Cert, c.TrackMem = true, true
 								out = append(out, c)
 							}
 						}
